@@ -67,7 +67,10 @@ where
             if resp.code != 200 {
                 bail!("upstream server failure: {:?}", resp);
             }
-            let session_id = resp.header("Session-Id", "0").parse().unwrap();
+            let session_id = resp
+                .header("Session-Id", "0")
+                .parse()
+                .context("upstream server sent a bad Session-Id")?;
             ctx.write()
                 .await
                 .set_server_frames(if frame_channel.eq_ignore_ascii_case("inline") {
